@@ -165,7 +165,7 @@ var allowedFns = map[string]bool{
 	"(io/fs.FileMode).Type": true, "(io/fs.FileMode).Perm": true,
 	"(crypto/subtle).ConstantTimeCompare": true, "crypto/subtle.ConstantTimeCompare": true, "crypto/subtle.ConstantTimeByteEq": true,
 	"crypto/subtle.ConstantTimeEq": true,
-	"(*sync.Once).Do": false,
+	"(*sync.Once).Do":              false,
 }
 
 func (w *World) denied(name string) bool {
